@@ -1,4 +1,20 @@
-// harnesses for this file are added below
+// lightning-invoice/src/ser.rs: exposes the private base-32 integer encoder to the de.rs harness
 use super::*;
 include!("/verif/hooks/common.rs");
-pub fn replay(_name: &str, _a: &[u128]) -> Option<Outcome> { None }
+
+/// Calls the real (private) encoder and collects its digits.
+pub fn encode_u64(int: u64) -> ([Fe32; 13], usize) {
+	let mut out = [Fe32::Q; 13];
+	let mut n = 0;
+	for d in encode_int_be_base32(int) {
+		out[n] = d;
+		n += 1;
+	}
+	(out, n)
+}
+pub fn size_u64(int: u64) -> usize {
+	encoded_int_be_base32_size(int)
+}
+pub fn replay(_name: &str, _a: &[u128]) -> Option<Outcome> {
+	None
+}
